@@ -124,6 +124,8 @@ pub struct TapState {
     pub diffs: u64,
     pub resets: u64,
     pub pendings: u64,
+    /// the wrapped stream returned Pending during the current outer poll (cleared by the interpreter)
+    pub pending_this_poll: bool,
     /// first inapplicable diff
     pub error: Option<String>,
     pub empty_batch: bool,
@@ -224,7 +226,10 @@ impl<I: DiffItem> Stream for Tap<I> {
         match &r {
             Poll::Ready(Some(item)) => item.record(&mut st),
             Poll::Ready(None) => st.ended = true,
-            Poll::Pending => st.pendings += 1,
+            Poll::Pending => {
+                st.pendings += 1;
+                st.pending_this_poll = true;
+            }
         }
         r
     }
